@@ -678,17 +678,31 @@ Proof.
   cbn [racc0 ra_data ra_blocks ra_meta]. rewrite app_nil_r. reflexivity.
 Qed.
 
+Lemma read_msas_cons : forall b rest K R k m ms,
+  b_dtype b = s_msa -> block_keys (b_head b) = Some [(s_idk, K); (s_refk, R)] -> parse_int K = Some k ->
+  read_msa_body (b_body b) = Ok m -> read_msas rest = Ok ms ->
+  read_msas (b :: rest) = Ok ((R, k, m) :: ms).
+Proof.
+  intros b rest K R k m ms H1 H2 H3 H4 H5. cbn [read_msas]. rewrite H1.
+  change (str_eqb s_msa s_msa) with true. cbv iota. rewrite H2.
+  change (assoc_str s_idk [(s_idk, K); (s_refk, R)]) with (Some K).
+  change (assoc_str s_refk [(s_idk, K); (s_refk, R)]) with (Some R).
+  cbv iota. rewrite H3, H4, H5. reflexivity.
+Qed.
+
 Lemma read_msas_blocks : forall ref ms, ref_ok ref -> Forall entry_ok ms ->
   read_msas (map (blk_of ref) ms) = Ok (map (fun e => (ref, fst (fst e), expected_read (snd e))) ms).
 Proof.
   intros ref. induction ms as [|[[k stamp] m] ms IH]; intros RO F; [reflexivity|].
   inversion F as [|? ? [OK FS] Hr]; subst. cbn [fst snd] in *.
-  cbn [map read_msas]. unfold blk_of at 1. cbn [b_dtype b_head b_body fst snd].
-  change (str_eqb s_msa s_msa) with true. cbv iota.
-  destruct (header_parse ref k m (msa_okb_cons m OK) RO) as [_ HK]. rewrite HK.
-  change (assoc_str s_idk [(s_idk, show_int k); (s_refk, ref)]) with (Some (show_int k)).
-  change (assoc_str s_refk [(s_idk, show_int k); (s_refk, ref)]) with (Some ref).
-  cbv iota. rewrite parse_show_int, msa_body_roundtrip by assumption. rewrite IH by assumption. reflexivity.
+  destruct (header_parse ref k m (msa_okb_cons m OK) RO) as [_ HK].
+  cbn [map fst snd].
+  apply (read_msas_cons _ _ (show_int k) ref k (expected_read m)).
+  - reflexivity.
+  - exact HK.
+  - apply parse_show_int.
+  - apply msa_body_roundtrip; assumption.
+  - apply IH; assumption.
 Qed.
 
 (* THE MSA SECTION: every cognate set comes back from its block - ids, taxa, aligned rows, plain
@@ -702,4 +716,104 @@ Proof.
   - unfold closed_pre, good. rewrite S. repeat split.
   - unfold read_msa_section, read_raw. rewrite S. cbn [ra_err ra_open ra_data ra_blocks ra_meta rev].
     rewrite rev_involutive. apply read_msas_blocks; assumption.
+Qed.
+
+(* ------------------------------------------------------------------ *)
+(* the state add_alignments rebuilds from the columns is not affected by the reordering of the rows *)
+Lemma filter_isort_in : forall (p : row -> bool) (leb : row -> row -> bool) l,
+  (forall x y, In x l -> In y l -> p x = true -> p y = true -> leb x y = true) ->
+  filter p (isort leb l) = filter p l.
+Proof.
+  intros p leb. induction l as [|x l IH]; intros H; [reflexivity|].
+  rewrite isort_cons, filter_insert.
+  - rewrite IH by (intros a b Ia Ib; apply H; right; assumption). cbn [filter]. destruct (p x); reflexivity.
+  - intros Px y Iy Py. apply H; [left; reflexivity| |exact Px|exact Py].
+    right. eapply Permutation_in; [apply isort_perm|exact Iy].
+Qed.
+
+Lemma index_of_mem : forall s l, mem_str s l = true -> exists i, index_of s l = Some i.
+Proof.
+  intros s. induction l as [|x l IH]; intros H; [discriminate H|].
+  cbn [mem_str] in H. cbn [index_of]. destruct (str_eqb s x); [exists O; reflexivity|].
+  cbn [orb] in H. destruct (IH H) as [i E]. rewrite E. exists (S i). reflexivity.
+Qed.
+
+Theorem selc_sorted : forall tbl w ref k t, wl_ok tbl w -> no_crossb (wl_cols w) ref (wl_rows w) = true ->
+  selc (wl_cols w) ref (sorted_rows w) k t = selc (wl_cols w) ref (wl_rows w) k t.
+Proof.
+  intros tbl w ref k t OK NC. unfold selc, sorted_rows.
+  assert (LU : Forall (fun c => lower (upper c) = c) (wl_cols w)).
+  { eapply Forall_impl; [|apply (ok_cols _ _ OK)]. intros a [_ [_ [E _]]]. exact E. }
+  rewrite (index_of_upper _ LU).
+  destruct (index_of_mem _ _ (ok_concept _ _ OK)) as [i Ei]. rewrite Ei.
+  pose proof (ok_keys _ _ OK) as KS. rewrite (index_of_upper _ LU), Ei in KS.
+  apply filter_isort_in. intros x y Ix Iy Px Py.
+  apply andb_true_iff in Px. destruct Px as [Px1 Px2]. apply andb_true_iff in Py. destruct Py as [Py1 Py2].
+  unfold no_crossb in NC. rewrite forallb_forall in NC. specialize (NC x Ix). rewrite forallb_forall in NC.
+  specialize (NC y Iy).
+  assert (SG : same_groupb (wl_cols w) ref x y = true).
+  { unfold same_groupb.
+    destruct (cell_int (get_col (wl_cols w) ref x)) as [a|]; [|discriminate Px1].
+    destruct (cell_int (get_col (wl_cols w) ref y)) as [b|]; [|discriminate Py1].
+    apply Z.eqb_eq in Px1, Py1. subst a b. rewrite Z.eqb_refl. cbn [andb].
+    apply cell_is_eq in Px2. apply cell_is_eq in Py2. rewrite Px2, Py2. apply str_eqb_refl. }
+  rewrite SG in NC. cbn [negb orb] in NC.
+  rewrite forallb_forall in KS. pose proof (KS x Ix) as Kx. pose proof (KS y Iy) as Ky.
+  unfold row_leb. unfold get_col in NC. rewrite Ei in NC. unfold key_cell in *.
+  destruct (nth i (snd x) VNone) as [| |sx| | | |]; try discriminate Kx.
+  destruct (nth i (snd y) VNone) as [| |sy| | | |]; try discriminate Ky.
+  cbn [cell_eqb] in NC. apply str_eqb_eq in NC. subst sy. cbn [cell_leb]. apply str_leb_refl.
+Qed.
+
+Lemma rebuild_ext : forall cols (S1 S2 : Z -> str -> list row) taxa cogids,
+  (forall k t, S1 k t = S2 k t) -> rebuild cols S1 taxa cogids = rebuild cols S2 taxa cogids.
+Proof.
+  intros cols S1 S2 taxa cogids H. unfold rebuild.
+  apply flat_map_ext. intros k. unfold rebuild_one, members.
+  rewrite (flat_map_ext (S1 k) (S2 k)) by (intros t; apply H). reflexivity.
+Qed.
+
+(* THE ALIGNMENT STATE: what Alignments.add_alignments rebuilds from the columns of the object read back
+   is what it rebuilds from the columns of the object saved, for any list of doculects and cognate ids *)
+Theorem alignments_state_roundtrip : forall tbl w ref taxa cogids,
+  wl_okb tbl w = true -> no_crossb (wl_cols w) ref (wl_rows w) = true ->
+  alignments_state (wl_cols w) ref taxa cogids (sorted_rows w)
+  = alignments_state (wl_cols w) ref taxa cogids (wl_rows w).
+Proof.
+  intros tbl w ref taxa cogids H NC. unfold alignments_state. apply rebuild_ext.
+  intros k t. apply (selc_sorted tbl); [apply wl_okb_ok, H|exact NC].
+Qed.
+
+(* the blocks of a written file are the blocks of its meta section *)
+Lemma written_blocks : forall pretty pre stamp w ls, write pretty pre stamp w = Ok ls ->
+  closed_pre pre -> Forall skipline stamp ->
+  exists data, read_raw ls = Ok (data, rev (ra_blocks (scan pre)), rev (ra_meta (scan pre))).
+Proof.
+  intros pretty pre stamp w ls W CP FS. unfold write in W.
+  destruct (match index_of s_CONCEPT (map upper (wl_cols w)) with
+            | Some i => (i, VNone) | None => (0%nat, VStr []) end) as [idx init].
+  destruct (match index_of s_CONCEPT (map upper (wl_cols w)) with
+            | Some i => sortableb i (wl_rows w) | None => true end); [|discriminate W].
+  inversion W as [E]. clear W E. eexists. apply scan_written.
+  - destruct pretty; repeat constructor.
+  - exact CP.
+  - destruct pretty; repeat constructor.
+  - apply header_dataline.
+  - exact FS.
+Qed.
+
+(* AN ALIGNED WORDLIST WRITTEN WITH ITS ALIGNMENTS: the rows and every cognate set come back *)
+Theorem aligned_file_roundtrip : forall tbl pretty stamp w ref ms,
+  wl_okb tbl w = true -> ref_ok ref -> Forall entry_ok ms -> Forall skipline stamp ->
+  exists ls, write pretty (msa_section ref ms) stamp w = Ok ls
+    /\ read tbl ls = Ok (mk_wl (wl_cols w) (sorted_rows w))
+    /\ read_msa_section ls = Ok (map (fun e => (ref, fst (fst e), expected_read (snd e))) ms).
+Proof.
+  intros tbl pretty stamp w ref ms H RO F FS.
+  destruct (msa_section_roundtrip ref ms RO F) as [CP RS].
+  destruct (file_roundtrip tbl pretty (msa_section ref ms) stamp w H CP FS) as [ls [W R]].
+  exists ls. split; [exact W|]. split; [exact R|].
+  destruct (written_blocks _ _ _ _ _ W CP FS) as [data RR].
+  unfold read_msa_section in *. rewrite RR.
+  unfold read_raw in RS. destruct CP as [[G1 G2] _]. rewrite G1, G2 in RS. exact RS.
 Qed.
